@@ -115,11 +115,18 @@ def verdict (aesni : Bool) (cfgs : List Cfg) (sni : Bytes) (localAddr : Option B
 lies in the governing site's range (TLS 1.2 minimum unless configured), a client certificate is
 requested exactly when that site demands one, and — when the site is found by name — the
 certificate presented is the one of that site's host pattern -/
+def hsInvalid (o : HS) : String :=
+  match o with
+  | .fail => "ok"
+  | .ok _ _ _ => "bad:handshake-on-invalid-set:a handshake completed on a site set that must be rejected or plaintext"
+
 def hsVerdict (aesni : Bool) (cfgs : List Cfg) (sni : Bytes) (localAddr : Option Bytes) (o : HS) : String :=
-  if !inDomain cfgs || mixed cfgs || cfgs.all (!·.enabled) || caMissing cfgs || conflicting aesni cfgs then
-    match o with
-    | .fail => "ok"
-    | .ok _ _ _ => "bad:handshake-on-invalid-set:a handshake completed on a site set that must be rejected or plaintext"
+  if !inDomain cfgs then "ok"
+  else if mixed cfgs then hsInvalid o
+  else if cfgs.all (!·.enabled) then hsInvalid o
+  else if caMissing cfgs then hsInvalid o
+  else if conflicting aesni cfgs then hsInvalid o
+  else if mapKey (normalizedName sni) = [] then "ok"   -- empty or IP-literal server name: not an SNI value
   else
     match o, wanted cfgs sni localAddr with
     | .fail, _ => "ok"
